@@ -109,7 +109,7 @@ def check(ctx, prop):
         pick = cover
     for h in pick:
         scheds.append({"unit": UNIT, "seed": ctx.seed, "steps": h}); labels.append("cover")
-    hs, _ = T.simulate_hists(ctx, d, "MC_LfsUpload.tla", "Sim_LfsUpload.cfg", num=(60 if quick else 1200), depth=9, seed=ctx.seed)
+    hs, _ = T.simulate_hists(ctx, d, "MC_LfsUpload.tla", "Sim_LfsUpload.cfg", num=(60 if quick else 400), depth=9, seed=ctx.seed)
     known = {json.dumps(s["steps"], sort_keys=True) for s in scheds}
     for h in hs:
         if json.dumps(h, sort_keys=True) not in known:
